@@ -180,6 +180,12 @@ func checkOne(c *core.Ctx, text string, hs, is gen.DataSpec, verbose bool) {
 		if oi == 2 && !strings.Contains(lo, "<svg") && !strings.Contains(lo, "<math") {
 			continue
 		}
+		if oi == 2 && !c.Strict && countComments(htmltok.Tokenize(rH.Out, opt)) > countComments(htmltok.Tokenize(rH.Out, htmltok.Options{})) {
+			// known finding K21 (C01) / K21b (C02): raw-text elements inside svg/math; the engine
+			// keeps "<!--" in <svg><script>, a foreign-content-aware parser opens a comment there
+			c.Count("foreign_pass_excluded_by_known:K21b", 1)
+			continue
+		}
 		var inertTags []*htmltok.Token
 		tokH := htmltok.Tokenize(rH.Out, opt)
 		var tokI htmltok.Result
@@ -301,6 +307,16 @@ func checkOne(c *core.Ctx, text string, hs, is gen.DataSpec, verbose bool) {
 			c.DistinctS(text, util.JSON(hs))
 		}
 	}
+}
+
+func countComments(r htmltok.Result) int {
+	n := 0
+	for _, t := range r.Tokens {
+		if t.Type == htmltok.Comment {
+			n++
+		}
+	}
+	return n
 }
 
 // enclosing returns the name of the last start tag before a text token.
